@@ -231,6 +231,9 @@ def bounded(tier, seed, repo_root):
                     # the message must not depend on the verbosity options
                     jobs.append((fmt, c, rejected % 2, ['--quiet']))
                     jobs.append((fmt, c, (rejected + 1) % 2, ['--log-level', 'CRITICAL']))
+    cap = 600 if tier == 'quick' else 3000
+    if len(sjobs) > cap:
+        sjobs = random.Random(seed).sample(sjobs, cap)      # (each is a subprocess of about a second)
     res = pmap(_run, jobs, repo_root, job_timeout=60, on_timeout=timeout_failure('C20'))
     fails = [f for fs in res for f in fs]
     fails += [f for fs in pmap(_run_stdin, sjobs, repo_root, chunksize=2, job_timeout=150, on_timeout=timeout_failure('C20')) for f in fs]
